@@ -390,7 +390,12 @@ impl<T: Send + Sync + 'static> Puppet<T> {
             g.log.push(Ev::Owner { pup: self.id, inst: inst as u16, owner });
         }
         let h = self.world.enter(Site::PupRecv { pup: self.id, inst: inst as u16, msg: M::Handshake });
-        if !self.spec.late {
+        if self.spec.refuse {
+            // the subscription is refused: one Error, no greeting, nothing else ever
+            self.world.lock().pups[self.id as usize][inst].ended = true;
+            let (id, e) = self.world.new_err();
+            self.send(inst, M::Error(id), Message::Error(e));
+        } else if !self.spec.late {
             self.greet(inst);
         }
         self.world.exit(h);
@@ -428,7 +433,46 @@ impl<T: Send + Sync + 'static> Puppet<T> {
                         }
                     }
                     M::Terminate | M::Error(_) => {
-                        me.world.lock().pups[me.id as usize][inst].terminated = true;
+                        let first = {
+                            let mut g = me.world.lock();
+                            let st = &mut g.pups[me.id as usize][inst];
+                            let first = !st.terminated;
+                            st.terminated = true;
+                            first
+                        };
+                        // teardown effect: another source of the same subscription ends (or pushes) from inside this call
+                        if let (true, Some(k)) = (first, me.spec.on_term) {
+                            let target = {
+                                let mut g = me.world.lock();
+                                let n = g.pup_drivers.len();
+                                let owner = g.pups[me.id as usize][inst].owner;
+                                if n == 0 {
+                                    None
+                                } else {
+                                    let p = k as usize % n;
+                                    let ti = g.pups[p]
+                                        .iter()
+                                        .enumerate()
+                                        .rev()
+                                        .find(|(i, st)| st.owner == owner && st.live() && !(p == me.id as usize && *i == inst))
+                                        .map(|(i, _)| i);
+                                    match (ti, g.pup_drivers[p].clone()) {
+                                        (Some(i), Some(d)) => {
+                                            let prev = std::mem::replace(&mut g.cur_tag, owner);
+                                            Some((i, d, prev))
+                                        }
+                                        _ => {
+                                            g.skipped_by_guard += 1;
+                                            None
+                                        }
+                                    }
+                                }
+                            };
+                            if let Some((i, d, prev)) = target {
+                                d.act(i, PAct::End);
+                                me.world.lock().cur_tag = prev;
+                            }
+                        }
                     }
                     _ => {}
                 }
